@@ -600,6 +600,46 @@ func RunC18(cfg Config) (*ShardResult, error) {
 			}
 		}
 	}
+	// ---------- B2. an over-long line inserted at every line position of a structurally rich document
+	// (header, comments, style blocks, regions, known and unknown sections): the cue count with a short
+	// line at that position is the reference; with the long line the reader must fail or return all of them
+	for _, f := range []string{"srt", "vtt", "ssa"} {
+		base, _ := corpus.LongLineBase(f)
+		for k := 0; k <= corpus.CountLines(base); k++ {
+			ctl := api.ReadOutcome(f, bytes.NewReader(corpus.InsertLine(base, k, 4, 'L')))
+			if ctl.Class != "ok" {
+				continue // a line here changes what the document is: not a position to test
+			}
+			for li, L := range lim.longLens {
+				if L > 1<<17 && k%4 != 0 {
+					continue
+				}
+				name := fmt.Sprintf("longline-%s-insert-before-line%d-len%d", f, k, L)
+				p := granPlan((k+li)%3, root.Derive("ll2", k))
+				if L > 1<<17 {
+					p = granPlan(0, nil)
+				}
+				if !cfg.Mine(Key64("longline2", name)) {
+					continue
+				}
+				data := corpus.InsertLine(base, k, L, 'L')
+				for _, reader := range corpus.ReaderConfigs(f) {
+					sc := ReadScenario{Doc: name, Reader: reader, Data: data, Plan: p}
+					v, sr := checkC18Read(sc, ctl.Items)
+					res.Evaluations++
+					res.SimEvents += int64(sr.St.Reads)
+					res.Note("ll2", reader, name, planKey(p), fmt.Sprint(v != nil, sr.St.Reads))
+					res.Probes["overlong_line_at_every_line_position"]++
+					if seen.add(Key64("ll2", reader, name, planKey(p))) {
+						res.Distinct++
+					}
+					if addV(v) {
+						return res, nil
+					}
+				}
+			}
+		}
+	}
 	// ---------- C. write faults and fault-free completeness
 	var sources []ListSource
 	for _, d := range docs {
